@@ -472,8 +472,8 @@ pub fn expectation(rule_text: &str, data: Option<&[u8]>, oracle: &mut Oracle) ->
     let op = Op::apply(&rule.to_string(), &data_v.to_string(), false);
     let iso = oracle.query(&op, STACK_KB);
     let e = match &iso.res {
-        Res::Ok(text) => Expect::Success { stdout: format!("{}{}\n", iso.emitted, text) },
-        Res::Err(msg) => Expect::Failure { log_prefix: iso.emitted.clone(), why: format!("evaluation fails: {}", msg) },
+        Res::Ok(text) => Expect::Success { stdout: format!("{}{}\n", iso.out(), text) },
+        Res::Err(msg) => Expect::Failure { log_prefix: iso.out(), why: format!("evaluation fails: {}", msg) },
         Res::Panic(m) => Expect::LibraryBroken { how: format!("panic: {}", m) },
         Res::Crash(m) if m.starts_with("over-budget") => Expect::Skip,
         Res::Crash(m) => Expect::LibraryBroken { how: m.clone() },
